@@ -8,6 +8,24 @@ ORACLE = {"FRAME_FAIL": ("C14", "frame-format"), "FCB_FAIL": ("C15", "fcb-primar
           "REPEAT_FAIL": ("C15", "repeated-request"), "ACCEPT_FAIL": ("C14", "accepted-foreign-or-damaged")}
 
 
+def link_tie(bdir, tier):
+    """the differential that ties Iec.Link101 to link_layer.c, for checks that only need the tie (C16):
+    returns (operations compared, first differences, histogram line)"""
+    ops, impl, model = (os.path.join(bdir, x) for x in ("ll_ops.txt", "ll_impl.txt", "ll_model.txt"))
+    lib = build_lib()
+    excl = {"iec60870/link_layer/link_layer.c"} | set(REAL_HAL)
+    exe = build_harness("ll101", ["ll101.c", "simhal.c"], lib, bdir, exclude=excl,
+                        extra_flags=["-I" + os.path.join(SRC, "iec60870/link_layer")])
+    rc, out = sh([exe, ops, impl, tier], env={"VERIF_SEED": str(seed())}, timeout=3000)
+    if rc != 0:
+        last = open(ops).read().splitlines()[-1:] if os.path.exists(ops) else [""]
+        return 0, [{"op": (last[0] if last else ""), "impl": "sanitizer abort at %s" % (asan_site(out),), "model": ""}], ""
+    histo = ([l for l in out.splitlines() if l.startswith("HISTO")] or [""])[-1]
+    run_model(ops, model)
+    n, diffs = first_diff(ops, impl, model)
+    return n, diffs, histo
+
+
 def run(res, pid):
     bdir = os.path.join(BUILD, pid)
     proof_ok, plog = proof_stage(res, pid)
